@@ -68,11 +68,23 @@ static inline void rg_write(RG_WORD* p, RG_WORD o, RG_WORD n, int mo, int kind) 
 def res_rules(var='result'):
     v = re.escape(var)
     return [
+        # Result::operator bool in every boolean context (a bare pointer would be "always true" in C: guarded by check_bool below)
+        (r'if\s*\(\s*' + v + r'\s*\)', 'if (RES_OK(' + var + '))', 0),
+        (r'(&&|\|\|)\s*' + v + r'\b(?!\s*[.\-(])', r'\1 RES_OK(' + var + ')', 0),
+        (r'(?<![\w.>])' + v + r'\s*(&&|\|\|)', 'RES_OK(' + var + r') \1', 0),
         (r'!\s*' + v + r'\b(?!\s*[.\-(])', '!RES_OK(' + var + ')', 0),
         (v + r'\.State\(\)\s*(==|!=)\s*ResultState::(\w+)', r'RES_STATE(' + var + r') \1 RS_\2', 0),
         (r'std::move\(_p\)\.Set\(\s*(?:std::forward<Result>\(' + v + r'\)|std::as_const\(' + v + r'\))\.(Error|Exception)\(\)\s*\)\s*;', r'P_Set_fail(self, RS_\1, ' + var + ');', 0),
         (r'\b(\d+)U\b', r'\1u', 0),
     ]
+
+
+def check_bool(name, c, var='result'):
+    """the Result variable is a pointer in the C text: any use of it as a truth value that the rules above did not turn into RES_OK would silently read as `true`"""
+    m = re.search(r'(?:[(!]|&&|\|\||\?)\s*' + re.escape(var) + r'\s*(?:[)?]|&&|\|\|)', re.sub(r'\b\w+\([^()]*\)', 'CALL', c))
+    if m:
+        raise ExtractionBreak('%s: `%s` used as a truth value in a form the recipe does not translate: ...%s...' % (name, var, m.group(0)))
+    return c
 
 
 def jobs(ctx):
@@ -88,6 +100,7 @@ def jobs(ctx):
     # ---------------- FirstFail Consume of Join / AllTuple / All -------------------------------------------------------------
     b_join = find_body(repo, F_JOIN, r'void\s+Consume\s*\(\s*Result\s*&&\s*result\s*\)', 'Join<FirstFail>::Consume', within=r'struct\s+Join<FailPolicy::FirstFail,')
     c = Rewriter('Join<FirstFail>::Consume', atomics=['_done'], pre=res_rules()).rewrite(b_join.text)
+    c = check_bool('Join<FirstFail>::Consume', c)
     contract = '''typedef struct St { unsigned long _done; } St;
 void Consume(St* self, Res* result)
 __CPROVER_requires(__CPROVER_is_fresh(self, sizeof(*self)) && __CPROVER_is_fresh(result, sizeof(*result)) && result->state <= RS_Error)
@@ -108,6 +121,7 @@ __CPROVER_ensures(result->state != RS_Value ==> g.elected)
     b_tc = find_body(repo, F_TUP, r'void\s+Consume\s*\(\s*Result\s*&&\s*result\s*\)', 'AllTuple<FirstFail>::Consume', within=r'struct\s+AllTuple<FailPolicy::FirstFail,')
     pre = res_rules() + [(r'std::get<Index>\(_tuple\)\s*=\s*std::forward<Result>\(result\)\.Value\(\)\s*;', 'TUP_SET_VALUE(Index, result);', 0)]
     c = Rewriter('AllTuple<FirstFail>::Consume', atomics=['_done'], pre=pre).rewrite(b_tc.text)
+    c = check_bool('AllTuple<FirstFail>::Consume', c)
     tup = '''unsigned long Index; unsigned g_tup_sets; unsigned long g_tup_slot, g_tup_src;
 static inline void TUP_SET_VALUE(unsigned long idx, Res* r) {
   __CPROVER_assert(r->state == RS_Value, "C09: .Value() only on an input that holds a value (a failed input after the first failure must not reach it)");
@@ -122,6 +136,7 @@ static inline void TUP_SET_VALUE(unsigned long idx, Res* r) {
     b_ac = find_body(repo, F_ALL, r'void\s+Consume\s*\(\s*InputCore\s*&\s*core\s*\)', 'All<FirstFail>::Consume', within=r'struct\s+All<FailPolicy::FirstFail,')
     pre = [(r'auto\s*&\s*result\s*=\s*core\.Get\(\)\s*;', 'Res* result = &core->_result;', 0)] + res_rules()
     c = Rewriter('All<FirstFail>::Consume', atomics=['_done'], pre=pre, refs=['core']).rewrite(b_ac.text)
+    c = check_bool('All<FirstFail>::Consume', c)
     contract_all = contract.replace('void Consume(St* self, Res* result)', 'void Consume(St* self, Core* core)').replace('__CPROVER_is_fresh(result, sizeof(*result)) && result->state <= RS_Error', '__CPROVER_is_fresh(core, sizeof(*core)) && core->_result.state <= RS_Error') \
         .replace('result->', 'core->_result.')
     src = COMMON + RESM + DONE_RG + 'unsigned char g_was_value;\n' + contract_all.replace('__CPROVER_assigns(self->_done, g)', '__CPROVER_assigns(self->_done, g, g_was_value)') + \
@@ -173,39 +188,44 @@ __CPROVER_assigns(g.retires)
 __CPROVER_ensures(g.retires == OLD(g.retires) + 1 && RET.src == OLD(g.retires) && RET.state <= RS_Error && (g_all_values ==> RET.state == RS_Value));
 unsigned char g_all_values;
 void VEC_PUSH(Res r)
-__CPROVER_requires(r.src == g.pushed && g.pushed < g_reserved)          /* aggregate: element k comes from input k, built in index order, without reallocation */
+__CPROVER_requires(r.src == g.pushed)          /* aggregate: element k comes from input k, built in index order (that the vector is reserved once is C20: unit alloc) */
 __CPROVER_assigns(g.pushed) __CPROVER_ensures(g.pushed == OLD(g.pushed) + 1);
 static inline Res RES_VALUE_OF(Res r) { __CPROVER_assert(r.state == RS_Value, "C09: .Value() only on an input that holds a value"); return r; }
 void DecRef(Core* c)
 __CPROVER_requires(c == &pool[g.decrefs] && g.decrefs < g.count && g.retires == 0)
 __CPROVER_assigns(g.decrefs) __CPROVER_ensures(g.decrefs == OLD(g.decrefs) + 1);
 '''.replace('Res Retire(Core* c)', 'unsigned char g_all_values_decl;\nRes Retire(Core* c)').replace('unsigned char g_all_values;\nvoid VEC_PUSH', 'void VEC_PUSH').replace('unsigned char g_all_values_decl;', 'unsigned char g_all_values;')
+    # both ways of walking the inputs are normalised to one canonical loop (ghost index vf_i): range-for over _cores, or an index loop 0 .. _cores.size()
     vec_pre = [(r'for\s*\(\s*auto\s*\*\s*core\s*:\s*_cores\s*\)\s*\{', 'for (size_t vf_i = 0; vf_i < VEC_SIZE(_cores); ++vf_i) { Core* core = VEC_AT(_cores, vf_i);', 0),
+               (r'for\s*\(\s*(?:std::)?size_t\s+(\w+)\s*=\s*0\s*;\s*\1\s*(?:!=|<)\s*_cores\.size\(\)\s*;\s*(?:\+\+\s*\1|\1\s*\+\+)\s*\)\s*\{',
+                r'for (size_t vf_i = 0; vf_i < VEC_SIZE(_cores); ++vf_i) { size_t \1 = vf_i;', 0),
+               (r'_cores\[\s*(\w+)\s*\]', r'VEC_AT(_cores, \1)', 0),
                (r'OutputValue\s+(\w+)\s*;', '', 0), (r'\b(?:output|result)\.reserve\(\s*_cores\.size\(\)\s*\)\s*;', 'VEC_RESERVE(VEC_SIZE(_cores));', 0),
-               (r'\b(?:output|result)\.push_back\(\s*core->Retire\(\)\.Value\(\)\s*\)\s*;', 'VEC_PUSH(RES_VALUE_OF(Retire(core)));', 0),
-               (r'\b(?:output|result)\.push_back\(\s*core->Retire\(\)\s*\)\s*;', 'VEC_PUSH(Retire(core));', 0),
-               (r'std::move\(_p\)\.Set\(\s*std::move\(\s*(?:output|result)\s*\)\s*\)\s*;', 'P_Set_aggregate(self);', 0), (r'_p\.Valid\(\)', 'P_Valid(self)', 0), (r'core->DecRef\(\)', 'DecRef(core)', 0)]
+               (r'(VEC_AT\([^()]*\)|\bcore)->Retire\(\)\.Value\(\)', r'RES_VALUE_OF(Retire(\1))', 0), (r'(VEC_AT\([^()]*\)|\bcore)->Retire\(\)', r'Retire(\1)', 0),
+               (r'(VEC_AT\([^()]*\)|\bcore)->DecRef\(\)', r'DecRef(\1)', 0),
+               (r'\b(?:output|result)\.(?:push_back|emplace_back)\(\s*((?:RES_VALUE_OF\()?Retire\((?:VEC_AT\([^()]*\)|core)\)\)?)\s*\)\s*;', r'VEC_PUSH(\1);', 0),
+               (r'std::move\(_p\)\.Set\(\s*std::move\(\s*(?:output|result)\s*\)\s*\)\s*;', 'P_Set_aggregate(self);', 0), (r'_p\.Valid\(\)', 'P_Valid(self)', 0)]
     b = find_body(repo, F_ALL, r'~All\s*\(\s*\)', 'All<None>::~All', within=r'struct\s+All<FailPolicy::None,')
     c = Rewriter('All<None>::~All', pre=vec_pre, nomembers=['_cores']).rewrite(b.text)
-    inv = '__CPROVER_assigns(vf_i, g.retires, g.pushed)\n__CPROVER_loop_invariant(vf_i <= g.count && g.retires == vf_i && g.pushed == vf_i && g.decrefs == 0 && g_reserves == 1 && g_reserved == g.count && !g.out_set)'
+    inv = '__CPROVER_assigns(vf_i, g.retires, g.pushed)\n__CPROVER_loop_invariant(vf_i <= g.count && g.retires == vf_i && g.pushed == vf_i && g.decrefs == 0 && !g.out_set)'
     c = attach_loop_contracts('All<None>::~All', c, [inv])
     src = COMMON + VEC + '''void Dtor(void* self)
-__CPROVER_requires(!g.out_set && g.retires == 0 && g.decrefs == 0 && g.pushed == 0 && g.count >= 1 && g.count <= POOL_MAX && g_reserves == 0)
+__CPROVER_requires(!g.out_set && g.retires == 0 && g.decrefs == 0 && g.pushed == 0 && g.count >= 1 && g.count <= POOL_MAX)
 __CPROVER_assigns(g.retires, g.pushed, g_reserves, g_reserved, g.out_set, g.out_state, g.out_is_aggregate)
 /* FailPolicy::None: when the last input completed, every input's Result is moved out (and the input released) exactly once, in input order, into one
-   vector reserved once (C20: a constant number of blocks), and the output is set with it */
-__CPROVER_ensures(g.retires == g.count && g.pushed == g.count && g.out_set == 1 && g.out_is_aggregate == 1 && g_reserves == 1 && g_reserved == g.count)
+   vector, and the output is set with it (C20, one reserve: unit alloc) */
+__CPROVER_ensures(g.retires == g.count && g.pushed == g.count && g.out_set == 1 && g.out_is_aggregate == 1)
 {''' + c + '''}
 void harness(void) { POOL_INIT(); g.out_set = 0; g_reserves = 0; g_all_values = 0; void* s; Dtor(s); if (g.count > 1) VF_CANARY("several inputs"); else VF_CANARY("one input"); }
 '''
     job('All.None.Dtor', b, src, 'Dtor', ['VEC_RESERVE', 'Retire', 'VEC_PUSH', 'P_Set_aggregate'], canaries=2, loops=True, expect=[r'postcondition', r'invariant after step|loop_invariant_step'])
     b = find_body(repo, F_ALL, r'~All\s*\(\s*\)', 'All<FirstFail>::~All', within=r'struct\s+All<FailPolicy::FirstFail,')
     c = Rewriter('All<FirstFail>::~All', pre=vec_pre, nomembers=['_cores']).rewrite(b.text)
-    inv1 = '__CPROVER_assigns(vf_i, g.retires, g.pushed)\n__CPROVER_loop_invariant(vf_i <= g.count && g.retires == vf_i && g.pushed == vf_i && g.decrefs == 0 && g_reserves == 1 && g_reserved == g.count && !g.out_set)'
+    inv1 = '__CPROVER_assigns(vf_i, g.retires, g.pushed)\n__CPROVER_loop_invariant(vf_i <= g.count && g.retires == vf_i && g.pushed == vf_i && g.decrefs == 0 && !g.out_set)'
     inv2 = '__CPROVER_assigns(vf_i, g.decrefs)\n__CPROVER_loop_invariant(vf_i <= g.count && g.decrefs == vf_i && g.retires == 0 && g.pushed == 0 && g.out_set)'
     c = attach_loop_contracts('All<FirstFail>::~All', c, [inv1, inv2])
     src = COMMON + VEC + '''void Dtor(void* self)
-__CPROVER_requires(g.out_set <= 1 && g.retires == 0 && g.decrefs == 0 && g.pushed == 0 && g.count >= 1 && g.count <= POOL_MAX && g_reserves == 0)
+__CPROVER_requires(g.out_set <= 1 && g.retires == 0 && g.decrefs == 0 && g.pushed == 0 && g.count >= 1 && g.count <= POOL_MAX)
 __CPROVER_requires(g.out_set == !g_all_values)          /* the output was already decided iff some input failed (Consume contract) */
 __CPROVER_assigns(g.retires, g.decrefs, g.pushed, g_reserves, g_reserved, g.out_set, g.out_state, g.out_is_aggregate)
 /* every input is released exactly once whether or not the output was already decided: no failure - values moved out in input order and the aggregate is set;
@@ -326,8 +346,14 @@ void CombDecRef(void* self) __CPROVER_requires(g_inline == g_comb_decrefs + 1) _
         inv = ('__CPROVER_assigns(i, g_next_input, g_registered, g_attached, g_inline, g_attach_ok, g_last_consume_i, g_comb_decrefs)\n'
                '__CPROVER_loop_invariant(i <= count && g_next_input == i && g_attached + g_inline == i && g_comb_decrefs == g_inline && (CORE_POLICY == KP_Owned ? g_registered == i : g_registered == 0))')
         c = attach_loop_contracts(nm, c, [inv])
+        # a private helper the loop body was moved into is extracted with the same rules and verified inline (vf.cxx2c.auto_helpers)
+        from vf.cxx2c import auto_helpers
+        hdefs, hb = auto_helpers(repo, F_WHEN, within, c, {'Register', 'Consume', 'Set', 'DecRef', 'IncRef', 'SetCallbackAt', 'ConsumeDyn', 'CombDecRef'},
+                                 lambda hn, ht, refs: Rewriter(nm + '.' + hn, pre=reg_pre, refs=['core'] + refs, nomembers=[]).rewrite(ht).replace('self', 'vf_self'),
+                                 ctype=lambda t: 'Core*' if t.rstrip('*&') in ('Core', 'InputCore', 'BaseCore') else None)
+        hdefs = 'static void* vf_self;\n' + hdefs if hdefs else ''
         for kp in ('KP_Owned', 'KP_Managed'):
-            src = COMMON + '#define CORE_POLICY %s\n#define CB_PER_INPUT %d\n' % (kp, per) + reg_stubs + '''void Set(void* self, int begin, size_t count)
+            src = COMMON + '#define CORE_POLICY %s\n#define CB_PER_INPUT %d\n' % (kp, per) + reg_stubs + hdefs + '''void Set(void* self, int begin, size_t count)
 __CPROVER_requires(count == g.count && count >= 1 && count <= (1UL << 40) && g_next_input == 0 && g_registered == 0 && g_attached == 0 && g_inline == 0 && g_comb_decrefs == 0)
 __CPROVER_assigns(g_next_input, g_registered, g_attached, g_inline, g_attach_ok, g_last_consume_i, g_comb_decrefs)
 /* registration (any count): every input is taken from its future exactly once, input i is registered / attached under index i, an input that was already complete is consumed
@@ -338,11 +364,13 @@ __CPROVER_ensures(CORE_POLICY == KP_Owned ? g_registered == count : g_registered
 void harness(void) { g.count = nondet_ulong(); __CPROVER_assume(g.count >= 1 && g.count <= (1UL << 40)); g_cores = malloc(sizeof(Core) * g.count); __CPROVER_assume(g_cores != 0);
   g_next_input = g_registered = g_attached = g_inline = g_comb_decrefs = 0; void* s; Set(s, 0, g.count); if (g_inline) VF_CANARY("some already complete"); else VF_CANARY("all pending"); }
 '''
-            job('%s.%s' % (nm, kp[3:]), b, src, 'Set', ['TAKE_INPUT', 'Register', 'SetCallbackAt', 'ConsumeDyn', 'CombDecRef'], canaries=2, loops=True,
+            job('%s.%s' % (nm, kp[3:]), [b] + hb, src, 'Set', ['TAKE_INPUT', 'Register', 'SetCallbackAt', 'ConsumeDyn', 'CombDecRef'], canaries=2, loops=True,
                 expect=[r'postcondition', r'invariant after step|loop_invariant_step', r'precondition'], timeout=300)
     # When (dynamic form): empty input => invalid future, no allocation; else one contract + one combinator with `count` references
     b_wd = find_body(repo, F_WHEN, r'auto\s+When\s*\(\s*Iterator\s+begin\s*,\s*std::size_t\s+count\s*\)', 'when::When(begin, count)')
-    t = re.sub(r'\busing\s+\w+\s*=\s*(?:[^;<]|<(?:[^<>]|<(?:[^<>]|<[^<>]*>)*>)*>)+;', '', b_wd.text)
+    from vf.cxx2c import drop_pinned
+    t = drop_pinned('when::When(begin, count)', b_wd.text, ['using Core = typename Value::Core;', 'using S = Strategy<F, OutputValue, OutputError, Core>;',
+        'using FinalCombinator = std::conditional_t<!kIsOrdered<S::kConsumePolicy> && IsUniqueCore<Core>::Value, SingleCombinator<S, Core>, DynamicCombinator<S, Core>>;'])
     t = re.sub(r'static_assert\([^;]*\)\s*;', '', t)
     pre = [(r'return\s+Future<OutputValue,\s*OutputError>\{\s*nullptr\s*\}\s*;', 'return INVALID_FUTURE();', 0), (r'auto\s*\[\s*f\s*,\s*p\s*\]\s*=\s*MakeContract<OutputValue,\s*OutputError>\(\)\s*;', 'void* f = MAKE_CONTRACT();', 0),
            (r'auto\s*\*\s*combinator\s*=\s*MakeShared<FinalCombinator>\(\s*([^,;]+?)\s*,\s*([^,;]+?)\s*,\s*std::move\(p\)\s*\)\.Release\(\)\s*;', r'void* combinator = MAKE_COMBINATOR(\1, \2);', 0),
